@@ -94,6 +94,7 @@ def run(R):
     import c08
     c08.r5(R, rule="C07-R7", file_suffix="sdd.rs", err_types=("SddBudgetError",), floor=20)
     R.rule("C07-R4", "budget closure: no unbudgeted mutating manager operation is reachable from a try_* operation")
+    r12(R)
     adt = R.anchor("C07-R1", "adt SddManager", prog.adt(MGR))
     if not adt:
         return
@@ -658,6 +659,102 @@ def r10(R):
                  where=b.where(bad[0] if bad else lns[0]), detail=None if not bad else "the slot holds ids allocated as `len()` before the push - the first is 0 - and is "
                  "compared with 0 to decide `not registered yet`")
     R.ob("C07-R10", "scanned", "allocation sites (`id = table.len()` stored into a slot of the manager) scanned: %d" % nalloc, True)
+
+
+_UNWRAP = ("lock", "try_lock", "unwrap", "unwrap_or_else", "expect", "get_mut", "deref_mut", "deref", "borrow_mut", "write", "as_mut",
+           "into_inner", "as_deref_mut")
+
+
+def _chain_field(b, op):
+    """field of self an operand is derived from, looking through guards and unwrapping calls (`self.m.lock().unwrap()`, `self.m.get_mut()`)"""
+    pl = F.op_place(op) if "k" in op else op
+    for _ in range(12):
+        if pl is None:
+            return None
+        fs = [e.get("n") for e in pl["p"] if e["k"] == "field" and e.get("adt") == MGR]
+        if fs:
+            return fs[0]
+        ds = b.defs().get(pl["l"], [])
+        ds = [d for d in ds if d[0] in ("assign", "call")]
+        if len(ds) != 1:
+            return None
+        d = ds[0]
+        if d[0] == "call":
+            if d[2].name() in _UNWRAP and d[2].args:
+                pl = F.op_place(d[2].args[0])
+                continue
+            return None
+        rv = d[3]
+        if rv["rv"] in ("ref", "rawptr"):
+            pl = rv["pl"]
+        elif rv["rv"] in ("use", "cast"):
+            pl = F.op_place(rv["op"])
+        else:
+            return None
+    return None
+
+
+def r12(R):
+    R.rule("C07-R12", "a model count is a function of the diagram and the *current* literal weights: if anything computed while counting "
+                      "(everything the manager reaches from wmc) is kept in a field of the manager across calls, every operation that "
+                      "writes pos_weight / neg_weight clears that field on every path from the write to its return - otherwise a count "
+                      "taken after re-weighting a registered variable returns the value of the old weights")
+    prog = R.prog
+    from lib import writers as W
+    entry = [b for b in prog.bodies.values() if b.self_adt == MGR and b.name == "wmc" and not b.is_closure]
+    R.floor("C07-R12", "SddManager::wmc", len(entry), 1)
+    if not entry:
+        return
+    fam = []
+    for k in prog.reachable([entry[0].key]):
+        x = prog.bodies.get(k)
+        if x is not None and (x.self_adt == MGR or (x.is_closure and "SddManager" in x.key)):
+            fam.append(x)
+    R.floor("C07-R12", "manager bodies reached from wmc", len(fam), 2)
+    weights = ("pos_weight", "neg_weight")
+    kept = {}
+    for x in fam:
+        R.saw(x)
+        for c in x.calls():
+            if c.name() in ("lock", "try_lock", "write", "borrow_mut", "set", "store", "insert", "push", "replace", "get_or_insert_with", "entry",
+                            "get_mut", "fetch_add", "swap", "extend") and c.args:
+                f = _chain_field(x, c.args[0])
+                if f and f not in weights:
+                    kept.setdefault(f, (x, c))
+        for t in W.field_touches(prog, MGR, [f["name"] for f in prog.adt(MGR)["variants"][0]["fields"]], bodies=[x]):
+            if t.kind != "construct" and t.field not in weights:
+                kept.setdefault(t.field, (x, None))
+    R.advisory("C07-R12", "fields of the manager written while counting: %s" % (sorted(kept) or "none (the memo is a local of each call)"))
+    if not kept:
+        return
+    writers = {}
+    for t in W.field_touches(prog, MGR, list(weights)):
+        if t.kind == "construct":
+            continue
+        writers.setdefault(t.body.key, (t.body, []))[1].append(t)
+    R.floor("C07-R12", "writers of the literal weights", len(writers), 3)
+    for fld, (x0, c0) in sorted(kept.items()):
+        for key, (b, ts) in sorted(writers.items()):
+            clears = set()
+            for c in b.calls():
+                if c.name() in ("clear", "take", "drain") and c.args and _chain_field(b, c.args[0]) == fld:
+                    clears.add(c.bb)
+                    continue
+                y = prog.bodies.get(c.key)
+                if y is not None and y.self_adt == MGR and y.key != b.key:
+                    if any(c2.name() in ("clear", "take", "drain") and c2.args and _chain_field(y, c2.args[0]) == fld for c2 in y.calls()):
+                        clears.add(c.bb)
+            rets = {bb for bb, t in b.terms() if t["t"] == "return"}
+            bad = None
+            for t in ts:
+                reach = b.reach_from([t.bb], avoid=clears)
+                if t.bb not in clears and reach & rets:
+                    bad = t
+                    break
+            R.ob("C07-R12", "stale:%s:%s" % (fld, b.short), "%s writes a literal weight and drops what counting kept in `%s` on every path to its return" % (b.short, fld),
+                 bad is None, where=b.where(bad.ln if bad else None),
+                 detail=None if bad is None else "`%s` is filled while counting (in %s) and survives this write: the next wmc of a diagram counted before "
+                 "returns the value of the old weights" % (fld, x0.short))
 
 
 def _self_field(b, op):
